@@ -925,7 +925,10 @@ def evaluate__format_date_time(self: XPathFunction, context: ta.ContextType = No
             if not isinstance(context, XPathSchemaContext):
                 raise self.error('FOFD1340', f'Invalid place argument {place!r}')
         else:
-            value = value.astimezone(zone)
+            try:
+                value = value.astimezone(zone)
+            except OverflowError as err:
+                raise self.error('FODT0001', err) from None
 
     if result:
         result.append(']')
